@@ -498,12 +498,18 @@ def Norm_s(f, v):
     return Norm(f, inline=False).s(v)[:80]
 
 
-def _bounded_by(v, maxd, f=None):
+def _bounded_by(v, maxd, f=None, depth=0):
     if v is None:
         return False, 'unknown'
+    v = strip_casts(v)
     cv = const_of(v)
     if cv is not None:
         return cv <= maxd, 'const %d' % cv
+    if f is not None and (v.get('ref') or {}).get('k') == 'Local' and depth < 4:
+        from rules.effects import single_def as _sdb
+        d0 = _sdb(f, v['ref']['id'])
+        if d0 is not None:
+            return _bounded_by(d0, maxd, f, depth + 1)
     if v.get('callee', {}).get('n') == 'std::min':
         for a in kids(v)[1:]:
             ca = const_of(strip_casts(a))
@@ -528,6 +534,9 @@ def _bounded_by(v, maxd, f=None):
             oks.append(at[0] == 'le' and at[1] == nm.s(br) and at[2] <= maxd)
         if all(oks):
             return True, 'conditional clamp'
+        arms = [_bounded_by(br, maxd, f, depth + 1) for br in (a, b)]
+        if all(x[0] for x in arms):
+            return True, 'both arms bounded (%s / %s)' % (arms[0][1], arms[1][1])
         return False, 'unclamped:ConditionalOperator'
     r = v.get('ref', {})
     return False, 'unclamped:' + short(r.get('n', v['k']))
